@@ -1631,10 +1631,22 @@ impl<'a> Sem<'a> {
     }
 
     fn class_stmt(&mut self) {
+        let name = self.fresh("K");
+        // a forward declaration first (`class K;` / `class K {}`): a declaration of its own, with its own
+        // outline entry; every use of the name that follows the definition means the definition
+        if self.rng.chance(1, 6) && self.on("forward-declared-class") {
+            let doc = self.doc_comment();
+            let start = self.stmt_begin();
+            self.w("class ");
+            let fwd = self.declare(DeclKind::Class, &name, None, doc, None);
+            let tail = if self.rng.chance(2, 3) { ";" } else { " {}" };
+            self.w(tail);
+            self.stmt_end("Class", start, Some(fwd), true, None);
+            self.nl();
+        }
         let doc = self.doc_comment();
         let start = self.stmt_begin();
         self.w("class ");
-        let name = self.fresh("K");
         let decl = self.declare(DeclKind::Class, &name, None, doc, None);
         // the class is registered (without fields yet) so that its own body may mention it in types
         self.rec_targs.clear();
